@@ -1,7 +1,7 @@
 (* C04 — Durability: late TRANSIENT_LOCAL readers get history, VOLATILE readers do not.
    Model: Proto/RelModel.v.  AMatch rel tl = the data reader (RELIABLE iff rel, TRANSIENT_LOCAL iff tl)
    is created and discovery completes: add_matched_reader computes the proxy's first relevant sample. *)
-From DustDDS Require Import Base.Machine Proto.RelModel Proto.RelProofs Proto.RelWitness.
+From DustDDS Require Import Base.Machine Proto.RelModel Proto.RelProofs Proto.RelLive Proto.RelWitness.
 Open Scope Z_scope.
 
 (* A RELIABLE VOLATILE reader never presents a sample that was written before it was matched: for
@@ -52,6 +52,19 @@ Definition C04_transient_local_history_statement : Prop :=
   forall cf sched k, (rounds_needed sched <= k)%nat -> delivered (run cf init (sched ++ heal k)).
 Theorem C04_transient_local_history_refuted_gap_skip : ~ C04_transient_local_history_statement.
 Proof. exact reliable_liveness_full_refuted. Qed.
+(* HISTORY, the proved part (stage 1): KEEP_ALL writer, unfragmented samples, no removal, no deletion, at
+   most 256 samples: after any such schedule (lossy catch-up included) and k + 1 healing rounds, when nothing
+   is queued any more, a RELIABLE TRANSIENT_LOCAL reader - late or not - has been given EVERY change the
+   writer retains *)
+Theorem C04_transient_local_history_partial :
+  forall cf sched k,
+    0 < fsz cf -> depth cf = 0 -> forallb (live_act cf) sched = true ->
+    let s := run cf init (sched ++ heal (S k)) in
+    s_last s <= 256 -> s_net s = [] ->
+    forall p r w, s_rp s = Some p -> rp_rel p = true -> rp_tl p = true -> s_rd s = Some r -> rd_wp r = Some w ->
+      forall c, In c (s_changes s) -> In c (rd_pres r).
+Proof. exact transient_local_history_unfragmented. Qed.
+
 Theorem C04_gap_skip_witness :
   let s := run cf_gap init sched_gap in
   s_changes s = [mkCh 1 1 24 11; mkCh 3 2 24 33] /\ presented s = [mkCh 3 2 24 33] /\ s_net s = [] /\
@@ -77,5 +90,6 @@ Print Assumptions C04_volatile_no_history_reliable.
 Print Assumptions C04_volatile_no_history_refuted_best_effort.
 Print Assumptions C04_match_boundary.
 Print Assumptions C04_transient_local_history_refuted_gap_skip.
+Print Assumptions C04_transient_local_history_partial.
 Print Assumptions C04_gap_skip_witness.
 Print Assumptions C04_volatile_best_effort_witness.
